@@ -113,6 +113,8 @@ var xlDomWhitelist = []xlFunc{
 	{Pkg: "dom", Recv: "listImpl", Name: "AsSlice", Lean: "listAsSlice", Plain: true},
 	{Pkg: "dom", Name: "DefaultNodeMappingFn", Lean: "DefaultNodeMappingFn", Plain: true},
 	{Pkg: "dom", Name: "DefaultNodeEncoderFn", Lean: "DefaultNodeEncoderFn", Plain: true},
+	// dom/types.go: SearchEqual(in)(val)  [C19: the placeholder resolver searches with it]
+	{Pkg: "dom", Name: "SearchEqual", Lean: "SearchEqual", Curried: true},
 	// analytics/dependency_resolver.go: the default placeholder matcher `hasPlaceholderFunc(ph)(val)`  [C19]
 	{Pkg: "analytics", Name: "hasPlaceholderFunc", Lean: "hasPlaceholderFunc", Curried: true},
 	// diff/diff.go  [C07]
